@@ -4,6 +4,15 @@ from .. import universes as U
 from .. import engine, common
 
 
+UNIVERSE_NOTE = (' || Universes actually run are listed in per_universe with their alphabet size, depth, new states per depth and '
+                 'whether the search closed (fixpoint): U0 one ordered pair (explored to its fixpoint), U1 one pair in both endpoint orders, '
+                 'U2 all pairs + bulk helpers + node/attribute ops, TWO two pairs sharing instants, U3 seeded non-initial states, LONG one pair '
+                 'over an 11-instant window (many runs), UC adds + read-only query bundles + clear()/clear_edges(). Flavours: ints with a window '
+                 'straddling 0; unsorted string ids with instants beyond 2**53; ints with negative origin; tuple ids; numpy int64 instants; '
+                 'mutually incomparable ids (int, str, tuple, frozenset) — flavour 0 and one seed-selected flavour in full, the others on '
+                 'reduced universes (quick), all in full (thorough).')
+
+
 def flavours_for(tier, seed, allowed=(0, 1, 2, 3)):
     """list of (flavour, reduced).  quick: flavour 0 and one more selected by VERIF_SEED get the full universes, every
     other allowed flavour a reduced set (U0, U2 depth 1, TWO depth 2, LONG, UC) so that type- and magnitude-dependent
@@ -152,7 +161,7 @@ def run_state_property(prop, level, fn, tier, seed, classes=('DynGraph', 'DynDiG
             rep.sample(s)
     rep.assumptions = ['PYTHONHASHSEED=0', 'deterministic library; state key = structural walk of G.__dict__ + model',
                        "the state's own has_interaction matrix is taken as the presence relation"] + list(assumptions)
-    return rep.finish(known, rule)
+    return rep.finish(known, rule + UNIVERSE_NOTE)
 
 
 def replay_state_property(prop, fn, case):
